@@ -372,3 +372,33 @@ Proof.
   repeat split; try (intuition congruence); tauto.
 Qed.
 Print Assumptions C06_next_cycle_refuted.
+
+(* ---------- histories of runs: membership for EVERY rerun ---------- *)
+From Hio Require Import Proofs.SchedHist Proofs.SchedDequeTop3 Proofs.SchedDequeHist.
+
+(* every rerun transforms the doers lists it starts with (a run under a new Doist
+   starts the root's list at the given doers) by one log of effects of the program;
+   the first run is C06_members_run_partial / C06_members_run_snapshots *)
+Theorem C06_members_histories_partial :
+  forall (T : Type) (TT : Time T) (cycles fuel : nat) (asyn : bool) (p : prog T) (h : list rerun) (r : rerun),
+    NE0 (p_defs p) ->
+    exists log : list (id * mop), Forall (from_prog (p_defs p)) log /\
+      forall t, doers (get_sched (run_hist cycles fuel asyn p (h ++ [r])) t)
+                = mrun (doers (get_sched (rerun_start (run_hist cycles fuel asyn p h) r) t)) t log.
+Proof. intros T TT cycles fuel asyn p h r N. exact (run_hist_members cycles fuel asyn p h r N). Qed.
+Print Assumptions C06_members_histories_partial.
+
+Theorem C06_members_histories :
+  forall (T : Type) (TT : Time T) (cycles fuel : nat) (asyn : bool) (p : prog T) (h : list rerun) (r : rerun),
+    exists log : list (id * sop), Forall (from_prog3 (p_defs p)) log /\
+      (forall t, doers (get_sched (run_hist cycles fuel asyn p (h ++ [r])) t)
+                 = srun (doers (get_sched (rerun_start (run_hist cycles fuel asyn p h) r) t)) t log) /\
+      SnapOK (fun t => doers (get_sched (rerun_start (run_hist cycles fuel asyn p h) r) t)) log.
+Proof. intros T TT cycles fuel asyn p h r. exact (run_hist_members_all cycles fuel asyn p h r). Qed.
+Print Assumptions C06_members_histories.
+
+Example C06_histories_example :
+  NE0b (p_defs x_prog) = true /\
+  doers (get_sched (run_hist 10 100 false x_prog [RAgain (Some 2%Z) None]) 0%N) = [1; 2; 6]%N /\
+  doers (get_sched (run_hist 10 100 false x_prog x_hist) 0%N) = [2; 6]%N.
+Proof. vm_compute. repeat split. Qed.
